@@ -77,8 +77,9 @@ class Unit:
 
     def __init__(self, kind="gear", short=MASK, dtr0=0, dtr1=0, dtr2=0, groups=0,
                  devtypes=(), banks=None, random=0, draw=None, stores_address=True,
-                 dtr0_stuck=False):
+                 dtr0_stuck=False, verifies=True):
         self.kind = kind
+        self.verifies = verifies     # answers VERIFY SHORT ADDRESS (a unit may store the address and stay silent)
         self.short = short
         self.dtr0, self.dtr1, self.dtr2 = dtr0, dtr1, dtr2
         self.groups = groups
@@ -313,7 +314,7 @@ class Unit:
                 elif ((lo >> 7) & 1) == 0 and (lo & 1) == 1:
                     self.short = (lo >> 1) & 63
         elif hi == 0xB9:
-            if ((lo >> 7) & 1) == 0 and (lo & 1) == 1 and _is(self.short, (lo >> 1) & 63):
+            if ((lo >> 7) & 1) == 0 and (lo & 1) == 1 and _is(self.short, (lo >> 1) & 63) and self.verifies:
                 return 0xFF
         elif hi == 0xBB:
             if _is(self.random, self.search_addr()):
